@@ -83,6 +83,11 @@ type c30In struct {
 	PMeta  []c30KV  `json:"pmeta,omitempty"`
 	Origin *c30Wire `json:"origin,omitempty"` // nil = 404
 	OriginZ bool    `json:"originz,omitempty"`
+	// conc: overlapped externalizations of Jobs under Sched (see c30_conc.go)
+	Jobs   []c30Batch  `json:"jobs,omitempty"`
+	Sched  []c30ConcEv `json:"sched,omitempty"`
+	Free   bool        `json:"free,omitempty"`   // free-running goroutines, storage copies late
+	Procs1 bool        `json:"procs1,omitempty"` // run under GOMAXPROCS(1)
 }
 
 // ---- origins ----------------------------------------------------------------
@@ -442,7 +447,11 @@ func (m *c30Mat) describe(data []byte, enc string) (string, []byte, string) {
 	if ok && bytes.Equal(c30Reencode(recs), raw) {
 		rawT = "(C30.SIpc " + c30CoqBatches(recs) + ")"
 	} else {
-		rawT = m.other(raw, false, false)
+		// bytes produced by the code under test that are not the stream of what arrow reads
+		// from them: well framed if they at least START with that stream (the guard stops at
+		// the end-of-stream marker)
+		re := c30Reencode(recs)
+		rawT = m.other(raw, ok && re != nil && bytes.HasPrefix(raw, re), true)
 	}
 	if enc == "zstd" {
 		return "(C30.SZ " + rawT + ")", raw, rawT
@@ -626,6 +635,9 @@ func c30Run(in c30In) CaseOut {
 	mat := &c30Mat{}
 	var tags []string
 	obs := map[string]any{}
+	if in.Mode == "conc" {
+		return c30RunConc(in, mat)
+	}
 
 	if in.Mode == "res" {
 		cfg := c30RealCfg(in.Cfg, &c30Store{})
@@ -1185,6 +1197,7 @@ func c30Gen(r *rand.Rand, n int, tier string) []c30In {
 			out = append(out, c)
 		}
 	}
+	out = append(out, c30ConcBoundary(r)...)
 	if tier == "thorough" {
 		n0 := c30RowsFor(1 << 20)
 		for i := 0; i < 6; i++ {
@@ -1195,6 +1208,10 @@ func c30Gen(r *rand.Rand, n int, tier string) []c30In {
 	// ---- random
 	kinds := "DDDLLXPQEMRT"
 	for len(out) < n {
+		if r.Intn(8) == 0 {
+			out = append(out, c30ConcRandom(r))
+			continue
+		}
 		switch r.Intn(5) {
 		case 0, 1: // round trips around the threshold
 			b := c30RandBatch(r, r.Int63n(40))
